@@ -244,6 +244,7 @@ def fmtFinding (f : Finding) (caseLine real model : String) : String :=
 def splitArrow (l : String) : Option (String × String) :=
   match l.splitOn " => " with
   | [a, b] => some (a, b)
+  | [a] => if a.endsWith " =>" then some ((a.dropEnd 3).toString, "") else none
   | _ => none
 
 def words (s : String) : List String := (s.splitOn " ").filter (· != "")
@@ -262,6 +263,7 @@ def judgeBasic (st : JState) (caseLine : String) (ctoks otoks : List String) (ta
         (if chkC03chunk buf real then [] else [⟨"C03", true, "n is not just past the first CRLF"⟩]) ++
         (if real.st == .crash || chkC20 buf.length real.st adv then [] else [⟨"C20", true, "travel"⟩])
       let st := (st.bump s!"{tagPrefix}cases.chunk").bump s!"{tagPrefix}status.chunk.{real.st.tag}"
+      let st := if real.st.isC || real.st.isP || adv > 1 then st.bump "nontrivial.chunk" else st
       let st := st.sample s!"chunk.{real.st.tag}" caseLine
       (st, fs.map fun f => fmtFinding f caseLine (" ".intercalate otoks) model.text)
     | _, _ => (st.bump "badline", [s!"BADLINE {caseLine}"])
@@ -283,11 +285,180 @@ def judgeBasic (st : JState) (caseLine : String) (ctoks otoks : List String) (ta
         let fs := if real == model then fs else fs ++ [⟨"MODEL", false, "full observation differs from model"⟩]
         let st := (st.bump s!"{tagPrefix}cases.{kind}").bump s!"{tagPrefix}status.{kind}.{real.st.tag}"
         let st := if entered then st.bump s!"{tagPrefix}entered_headers.{kind}" else st
+        let st := if real.st.isC || real.st.isP || adv > 1 then st.bump s!"nontrivial.{kind}" else st
         let st := if real.hdrs.length > 0 then st.bump s!"{tagPrefix}with_headers.{kind}" else st
         let st := st.sample s!"{kind}.{real.st.tag}" caseLine
         (st, fs.map fun f => fmtFinding f caseLine (" ".intercalate otoks) (model.textFor k))
       | _, _, _, _ => (st.bump "badline", [s!"BADLINE {caseLine}"])
   | [] => (st, [])
+
+def splitObs (obsS : String) : List (List String) := (obsS.splitOn " ;; ").map words
+
+def clsOf (c : Nat) : Byte → Bool :=
+  if c == 0 then isUri else if c == 1 then isValue else isTchar
+
+def mkFail (prop : String) (hard : Bool) (note caseLine detail : String) : String :=
+  s!"FAIL {prop} {if hard then "hard" else "model"} | {note} | {caseLine} | {detail}"
+
+/-- compare a real basic observation with the model on (status, fields, headers) -/
+def sameAsModel (k : Kind) (cfg : Config) (cap : Nat) (buf : List Byte) (real : Obs) : Bool :=
+  sameResult real (modelObs k cfg cap buf)
+
+def judgeMulti (st : JState) (caseLine : String) (ctoks : List String) (obsS : String) : JState × List String :=
+  let parts := splitObs obsS
+  match ctoks with
+  | "split" :: "chunk" :: hex :: _ =>
+    match unhex? hex, parts.mapM parseChunkObs with
+    | some buf, some os =>
+      let pairs := List.zip os (os.drop 1)
+      let bad := (List.zip (List.range pairs.length) pairs).filter fun (_, (a, b)) => !chkC02chunk a b
+      let badM := (List.zip (List.range os.length) os).filter fun (i, o) => o != chunkObs false (buf.take i)
+      let st := (st.bump "cases.split.chunk").bump "pairs.split" pairs.length
+      (st, (bad.map fun (i, (a, b)) => mkFail "C02" true "result changed after appending a byte" caseLine s!"prefix {i}: {a.text} then {b.text}") ++
+           (badM.map fun (i, o) => mkFail "C09" false "chunk prefix result differs from model" caseLine s!"prefix {i}: {o.text}"))
+    | _, _ => (st.bump "badline", [s!"BADLINE {caseLine}"])
+  | "split" :: kind :: rest =>
+    match kindOfString kind with
+    | none => (st.bump "badline", [s!"BADLINE {caseLine}"])
+    | some k =>
+      let (cfgS, capS, hexS) := match k, rest with
+        | .hdrs, cap :: hex :: _ => ("0", cap, hex)
+        | _, cfg :: cap :: hex :: _ => (cfg, cap, hex)
+        | _, _ => ("", "", "")
+      match cfgS.toNat?, capS.toNat?, unhex? hexS, parts.mapM (parseObs k) with
+      | some cfgN, some cap, some buf, some os =>
+        let cfg := configOfBits cfgN
+        let pairs := List.zip os (os.drop 1)
+        let bad := (List.zip (List.range pairs.length) pairs).filter fun (_, (a, b)) => !chkC02 a b
+        let badM := (List.zip (List.range os.length) os).filter fun (i, o) => !sameAsModel k cfg cap (buf.take i) o
+        let nontriv := (pairs.filter fun (a, _) => !a.st.isP).length
+        let st := (((st.bump s!"cases.split.{kind}").bump "pairs.split" pairs.length).bump "pairs.split.nonpartial" nontriv).bump "nontrivial.split"
+        let st := st.sample s!"split.{kind}" caseLine
+        (st, (bad.map fun (i, (a, b)) => mkFail "C02" true "result changed after appending a byte" caseLine s!"prefix {i}: [{a.textFor k}] then [{b.textFor k}]") ++
+             (badM.map fun (i, o) => mkFail "C02" false "prefix result differs from model" caseLine s!"prefix {i}: real [{o.textFor k}] model [{(modelObs k cfg cap (buf.take i)).textFor k}]"))
+      | _, _, _, _ => (st.bump "badline", [s!"BADLINE {caseLine}"])
+  | "cfgpair" :: kind :: ca :: cb :: capS :: hex :: _ =>
+    match kindOfString kind, ca.toNat?, cb.toNat?, capS.toNat?, unhex? hex with
+    | some k, some ca, some cb, some cap, some buf =>
+      match parts.mapM (parseObs k) with
+      | some [oa, ob] =>
+        let cA := configOfBits ca
+        let cB := configOfBits cb
+        let ok := chkC15 k buf cA cB oa ob
+        let mOk := sameAsModel k cA cap buf oa && sameAsModel k cB cap buf ob
+        let st := st.bump s!"cases.cfgpair.{kind}"
+        let st := if oa.st.isC || oa.st.isP || ob.st.isC || ob.st.isP then st.bump "nontrivial.cfgpair" else st
+        let st := if cA.relevant k == cB.relevant k && ca != cb then st.bump "cfgpair.same_relevant" else st
+        let st := if ca == 0 && oa.st.isC then st.bump "cfgpair.default_complete" else st
+        let st := st.sample s!"cfgpair.{kind}.{oa.st.tag}" caseLine
+        (st, (if ok then [] else [mkFail "C15" true "configurations disagree where they must not" caseLine s!"A [{oa.textFor k}] B [{ob.textFor k}]"]) ++
+             (if mOk then [] else [mkFail "C15" false "observation under a configuration differs from model" caseLine s!"A [{oa.textFor k}] B [{ob.textFor k}]"]))
+      | _ => (st.bump "badline", [s!"BADLINE {caseLine}"])
+    | _, _, _, _, _ => (st.bump "badline", [s!"BADLINE {caseLine}"])
+  | "hrel" :: capS :: hex :: _ =>
+    match capS.toNat?, unhex? hex, parts with
+    | some _, some _, [h, rq, rs] =>
+      match parseObs .hdrs h, parseObs .req rq, parseObs .resp rs with
+      | some oh, some oq, some os =>
+        let ok := chkC16rel 16 oh oq && chkC16rel 17 oh os
+        let st := ((st.bump "cases.hrel").bump s!"status.hrel.{oh.st.tag}").bump "nontrivial.hrel"
+        let st := st.sample s!"hrel.{oh.st.tag}" caseLine
+        (st, if ok then [] else [mkFail "C16" true "parse_headers disagrees with the header part of a request/response" caseLine s!"hdrs [{oh.hdrsText}] req [{oq.reqText}] resp [{os.respText}]"])
+      | _, _, _ => (st.bump "badline", [s!"BADLINE {caseLine}"])
+    | _, _, _ => (st.bump "badline", [s!"BADLINE {caseLine}"])
+  | allk :: cfgS :: capS :: hex :: _ =>
+    if allk == "reqall" || allk == "respall" then
+      let k := if allk == "reqall" then Kind.req else Kind.resp
+      match cfgS.toNat?, capS.toNat?, unhex? hex with
+      | some cfgN, some cap, some buf =>
+        let cfg := configOfBits cfgN
+        let os := parts.map fun p => if p == ["NA"] then none else parseObs k p
+        match os with
+        | [plain, withCfg, plainU, cfgU] =>
+          -- `plain` / `plainU` run the default configuration whatever `cfg` says
+          let group := [withCfg, cfgU] ++ (if cfgN == 0 then [plain, plainU] else [])
+          let present := group.filterMap id
+          let ok16 := chkC16 present
+          let ok16d := chkC16 ([plain, plainU].filterMap id)
+          let ok17 := (match plain with | some o => chkC17 true cap 0 o | none => true) &&
+                      (match withCfg with | some o => chkC17 true cap 0 o | none => true) &&
+                      (match plainU with | some o => chkC17 false 2 cap o | none => true) &&
+                      (match cfgU with | some o => chkC17 false 2 cap o | none => true)
+          let mU := match cfgU with
+            | some o => o == (if k == .req then reqObsU specBackend cfg 2 cap buf else respObsU specBackend cfg 2 cap buf)
+            | none => true
+          let mP := match plain with
+            | some o => o == modelObs k Config.default cap buf
+            | none => true
+          let st := ((st.bump s!"cases.{allk}").bump s!"status.{allk}.{(withCfg.map (·.st.tag)).getD "?"}").bump "nontrivial.entries"
+          let st := st.sample s!"{allk}.{(withCfg.map (·.st.tag)).getD "?"}" caseLine
+          (st, (if ok16 && ok16d then [] else [mkFail "C16" true "entry points disagree" caseLine obsS]) ++
+               (if ok17 then [] else [mkFail "C17" true "header storage law violated at an entry point" caseLine obsS]) ++
+               (if mU && mP then [] else [mkFail "C16" false "entry-point observation differs from model" caseLine obsS]) ++
+               (if mU && mP then [] else [mkFail "C17" false "entry-point observation differs from model" caseLine obsS]))
+        | _ => (st.bump "badline", [s!"BADLINE {caseLine}"])
+      | _, _, _ => (st.bump "badline", [s!"BADLINE {caseLine}"])
+    else (st.bump "badline", [s!"BADLINE {caseLine}"])
+  | _ => (st.bump "badline", [s!"BADLINE {caseLine}"])
+
+def judgeHist (st : JState) (caseLine : String) (ctoks : List String) (obsS : String) : JState × List String :=
+  match ctoks with
+  | "hist" :: kind :: _ =>
+    match kindOfString kind, splitObs obsS with
+    | some k, [reused, fresh, metaT] =>
+      match parseObs k reused, parseObs k fresh with
+      | some r, some f =>
+        let ok := chkC18 r f
+        let st := ((st.bump s!"cases.hist.{kind}").bump s!"status.hist.{f.st.tag}").bump "nontrivial.hist"
+        let st := if (kv metaT "vb").bind String.toNat? != ((ctoks.getD 2 "").toNat?) then st.bump "hist.view_shrunk_before_probe" else st
+        let st := st.sample s!"hist.{kind}.{f.st.tag}" caseLine
+        (st, if ok then [] else [mkFail "C18" true "probe on a reused value differs from the probe on a fresh value" caseLine obsS])
+      | _, _ => (st.bump "badline", [s!"BADLINE {caseLine}"])
+    | _, _ => (st.bump "badline", [s!"BADLINE {caseLine}"])
+  | _ => (st.bump "badline", [s!"BADLINE {caseLine}"])
+
+def judgeScan (st : JState) (caseLine : String) (ctoks otoks : List String) : JState × List String :=
+  match ctoks with
+  | ["scan", be, cl, _, hex] =>
+    if otoks == ["NA"] then (st.bump s!"scan.na.{be}", []) else
+    match cl.toNat?, unhex? hex, (otoks.headD "").toNat? with
+    | some c, some buf, some n =>
+      let want := (buf.takeWhile (clsOf c)).length
+      let st := ((st.bump s!"cases.scan.b{be}.c{cl}")).bump "nontrivial.scan"
+      let st := if want < buf.length then st.bump "scan.stops_inside" else st
+      let st := st.sample s!"scan.b{be}.c{cl}" caseLine
+      (st, if n == want then [] else
+        [mkFail "C12" true "scanner did not stop at the first out-of-class byte" caseLine s!"real {n} expected {want}"])
+    | _, _, _ =>
+      if otoks.headD "" == "PANIC" then (st, [mkFail "C12" true "scanner panicked" caseLine "PANIC"]) else
+      (st.bump "badline", [s!"BADLINE {caseLine}"])
+  | ["swar", cl, hex] =>
+    if otoks == ["NA"] then (st.bump "swar.na", []) else
+    match cl.toNat?, unhex? hex, (otoks.headD "").toNat? with
+    | some c, some blk, some n =>
+      let want := (blk.takeWhile (clsOf c)).length
+      let st := (st.bump s!"cases.swar.c{cl}").bump "nontrivial.swar"
+      let st := if n < want then st.bump "swar.conservative" else st
+      -- the block kernels may stop early (the loop re-examines byte-wise) but never late
+      (st, if n ≤ want && (c != 2 || n == want) then [] else
+        [mkFail "C12" true "SWAR block kernel ran past an out-of-class byte" caseLine s!"real {n} exact {want}"])
+    | _, _, _ => (st.bump "badline", [s!"BADLINE {caseLine}"])
+  | ["classes"] =>
+    let want (c : Nat) : String := String.ofList ((List.range 256).map fun i => if clsOf c (UInt8.ofNat i) then '1' else '0')
+    let got (key : String) : String := (kv otoks key).getD ""
+    let ok := got "c0" == want 0 && got "c1" == want 1 && got "c2" == want 2 && got "c3" == want 2
+    (st.bump "cases.classes" 1024, if ok then [] else
+      [mkFail "C12" true "a class table differs from the RFC class" caseLine (" ".intercalate otoks)])
+  | ["utf8", hex] =>
+    match unhex? hex with
+    | some buf =>
+      let want := if validUtf8 buf then "1" else "0"
+      let st := ((st.bump "cases.utf8").bump s!"utf8.valid.{want}").bump "nontrivial.utf8"
+      (st, if otoks.headD "" == want then [] else
+        [mkFail "C05" false "validUtf8 differs from core::str::from_utf8" caseLine s!"real {otoks.headD ""} model {want}",
+         mkFail "C06" false "validUtf8 differs from core::str::from_utf8" caseLine s!"real {otoks.headD ""} model {want}"])
+    | none => (st.bump "badline", [s!"BADLINE {caseLine}"])
+  | _ => (st.bump "badline", [s!"BADLINE {caseLine}"])
 
 def judgeLine (st : JState) (l : String) : JState × List String :=
   match splitArrow l with
@@ -299,6 +470,17 @@ def judgeLine (st : JState) (l : String) : JState × List String :=
     | "place" :: _ :: rest => judgeBasic st caseLine rest otoks "place."
     | "force" :: _ :: rest =>
       if otoks == ["NA"] then (st.bump "na", []) else judgeBasic st caseLine rest otoks "force."
+    | "split" :: _ => judgeMulti st caseLine ctoks obsS
+    | "cfgpair" :: _ => judgeMulti st caseLine ctoks obsS
+    | "hrel" :: _ => judgeMulti st caseLine ctoks obsS
+    | "reqall" :: _ => judgeMulti st caseLine ctoks obsS
+    | "respall" :: _ => judgeMulti st caseLine ctoks obsS
+    | "hist" :: _ => judgeHist st caseLine ctoks obsS
+    | "scan" :: _ => judgeScan st caseLine ctoks otoks
+    | "swar" :: _ => judgeScan st caseLine ctoks otoks
+    | "classes" :: _ => judgeScan st caseLine ctoks otoks
+    | "utf8" :: _ => judgeScan st caseLine ctoks otoks
+    | "info" :: _ => (st.sample "info" obsS, [])
     | _ => judgeBasic st caseLine ctoks otoks
 
 def modelLine (st : JState) (l : String) : JState × List String :=
